@@ -40,7 +40,12 @@ def handle : List Sx → String
         | "ivec" =>
           -- body CODE.FROMINTEGER: every element, in order, moved to the CODE stack
           match pre.exec with
-          | .lit (.ivec v) :: _ => { d0 with code := (v.map fun x => Item.lit (.int x)).reverse ++ d0.code }
+          | .lit (.ivec v) :: _ =>
+            if body == "depth" then
+              -- body INTVECTOR.STACKDEPTH: every element, in order, each followed by the depth of the INTVECTOR stack
+              -- WITHOUT the iterated vector (no vector is left lying around while the body runs)
+              { d0 with int := (v.flatMap fun x => [x, lenI32 d0.ivec.length]).reverse ++ d0.int }
+            else { d0 with code := (v.map fun x => Item.lit (.int x)).reverse ++ d0.code }
           | _ => d0
         | _ => d0
       let pf := if encState want == encState fin then ""
